@@ -1,0 +1,95 @@
+//go:build verif
+
+// Purpose: Verification hooks: sync points and a deterministic id source.
+// Exports: none.
+// Role: Lets an external controller gate, observe or kill a process at named points.
+// Invariants: Without ERGO_VERIF_* environment variables every hook is a no-op.
+// Notes: Compiled only with -tags verif; gate + record, no logic.
+package ergo
+
+import (
+	"bufio"
+	"encoding/json"
+	"net"
+	"os"
+	"strings"
+	"sync"
+)
+
+type verifRecord struct {
+	Proc  string   `json:"proc"`
+	Pid   int      `json:"pid"`
+	Seq   int      `json:"seq"`
+	Point string   `json:"point"`
+	KV    []string `json:"kv,omitempty"`
+}
+
+var (
+	verifMu     sync.Mutex
+	verifSeq    int
+	verifConn   net.Conn
+	verifReader *bufio.Reader
+	verifIDs    []string
+	verifIDInit bool
+)
+
+// verifPoint reports a sync point. With ERGO_VERIF_SOCK it blocks until the
+// controller answers (the hook is the scheduler gate); with ERGO_VERIF_TRACE it
+// appends a record to that file (O_APPEND, so records written under the store
+// lock are totally ordered by the lock).
+func verifPoint(name string, kv ...string) {
+	sock := os.Getenv("ERGO_VERIF_SOCK")
+	trace := os.Getenv("ERGO_VERIF_TRACE")
+	if sock == "" && trace == "" {
+		return
+	}
+	verifMu.Lock()
+	defer verifMu.Unlock()
+	verifSeq++
+	rec := verifRecord{Proc: os.Getenv("ERGO_VERIF_PROC"), Pid: os.Getpid(), Seq: verifSeq, Point: name, KV: kv}
+	data, err := json.Marshal(rec)
+	if err != nil {
+		return
+	}
+	data = append(data, '\n')
+	if trace != "" {
+		if f, err := os.OpenFile(trace, os.O_APPEND|os.O_CREATE|os.O_WRONLY, 0644); err == nil {
+			_, _ = f.Write(data)
+			_ = f.Close()
+		}
+	}
+	if sock == "" {
+		return
+	}
+	if verifConn == nil {
+		conn, err := net.Dial("unix", sock)
+		if err != nil {
+			return
+		}
+		verifConn = conn
+		verifReader = bufio.NewReader(conn)
+	}
+	if _, err := verifConn.Write(data); err != nil {
+		return
+	}
+	_, _ = verifReader.ReadString('\n')
+}
+
+// verifNextID hands out ids from ERGO_VERIF_IDS (comma separated) in order,
+// then reports false so the normal random source is used.
+func verifNextID() (string, bool) {
+	verifMu.Lock()
+	defer verifMu.Unlock()
+	if !verifIDInit {
+		verifIDInit = true
+		if v := os.Getenv("ERGO_VERIF_IDS"); v != "" {
+			verifIDs = strings.Split(v, ",")
+		}
+	}
+	if len(verifIDs) == 0 {
+		return "", false
+	}
+	id := verifIDs[0]
+	verifIDs = verifIDs[1:]
+	return id, true
+}
